@@ -75,7 +75,7 @@ def run_assign(case, workdir=None, keep=False):
                              "feats": [float(r["rank"]), float(-r["rank"])]})
             key = ("ScanNr", "ret_time", "ExpMass") if case.get("key_rt") else ("ScanNr", "ExpMass")
             df = mk.build_table(rows, label_enc=case.get("label_enc", "1/-1"), extra_levels=extra, key_cols=key,
-                                missing_rt=case.get("key_rt") == "missing")
+                                missing_rt=case.get("key_rt") == "missing", int_mass=bool(case.get("int_mass")))
             ds = mk.make_dataset(df, wd / ("in%d.%s" % (c, case.get("fmt", "pin"))), extra_levels=extra, key_cols=key,
                                  row_group=case.get("row_group"))
             dsets.append(ds)
